@@ -2802,7 +2802,13 @@ fn is_filename_included(xs: &State, filename: &Xstr) -> bool {
     xs.sources.iter().any(|x| &x.0 == filename)
 }
 
+// files that include each other would otherwise never finish building
+const INCLUDE_DEPTH_MAX: usize = 64;
+
 fn include_source(xs: &mut State, filename: Xstr) -> Xresult {
+    if xs.input.len() >= INCLUDE_DEPTH_MAX {
+        return Err(Xerr::ErrorMsg(xeh_xstr!("include nesting is too deep")));
+    }
     let src = crate::file::fs_overlay::read_source_file(&filename)?;
     xs.intern_source(src.into(), Some(filename))
 }
